@@ -54,6 +54,14 @@ REQUIRED_CLASSES = ['trans:none', 'trans:1', 'trans:2', 'trans:3',
                     'corner:M=1', 'corner:M=500', 'corner:T<1.5*theta_rot:linear',
                     'corner:T<1.5*theta_rot:nonlinear', 'corner:T<=theta_rot', 'corner:theta_rot=0.01',
                     'corner:theta_vib/T>50', 'corner:crystal_theta/T>=20', 'corner:crystal_theta/T<=0.02',
+                    # parameter typing: whole numbers given as int / numpy int, sequences as list / tuple / ndarray
+                    'typing:int_list', 'typing:int_tuple', 'typing:int_ndarray', 'typing:np.int64_list',
+                    'typing:np.int64_tuple', 'typing:np.int64_ndarray', 'typing:float_tuple',
+                    'typing:np.float64_ndarray', 'typing:int_T', 'typing:np.int64_T',
+                    'typing:int_wavenumbers', 'typing:int_rot_temperatures', 'typing:int_scalars',
+                    'vib:int_wavenumbers+fractional_substitute',
+                    'hist:set_imaginary_substitute:int_wavenumbers+fractional',
+                    'hist:set_wavenumbers:int+fractional_substitute',
                     # re-assignment of every public parameter after a first evaluation
                     'hist:set_molecular_weight', 'hist:set_n_degrees', 'hist:set_rot_temperatures',
                     'hist:set_symmetrynumber', 'hist:set_geometry', 'hist:set_potentialenergy',
@@ -88,6 +96,11 @@ ASSUMPTIONS = [
     'miss on the G2 set: linear/nonlinear where every / some i-j-k angle deviates <1 / >10 degrees from '
     'collinear, rotational temperatures from the inertia tensor (3e-3; pMuTT amu literal has 4 digits; '
     'observed 2.3e-5), molar mass vs. the sum of ASE atomic masses (5e-2; observed 3.7e-4)',
+    'parameter typing stratum: whole-number parameter values handed over as Python int or numpy int64 '
+    '(or everything as numpy float64), sequences as list / tuple / ndarray, whole temperatures as int / '
+    'numpy int64 must give the closed forms of the numeric values (R7) and exactly (1e-12) what the same '
+    'numbers as floats in a list give; numpy float32 parameters are NOT generated: the unchanged tree is '
+    'not exact for them (float32 arithmetic, overflow to inf / -inf in FreeTrans and EinsteinVib)',
     're-assigning any public parameter of a mode object after a first evaluation (molecular_weight, '
     'n_degrees, vib_wavenumbers, imaginary_substitute, Einstein/Debye temperature, interaction_energy, '
     'rot_temperatures, symmetrynumber (number), geometry together with its rot_temperatures, '
@@ -298,6 +311,83 @@ def _corner(rng, spec):
     spec['corner'] = True
 
 
+# ---------------------------------------------------------------------- parameter typing
+SEQ_ATTRS = ('vib_wavenumbers', 'rot_temperatures')
+SCALAR_ATTRS = ('molecular_weight', 'imaginary_substitute', 'v0', 'einstein_temperature', 'debye_temperature',
+                'interaction_energy', 'potentialenergy', 'spin', 'symmetrynumber')
+INT_KINDS = ('int', 'np.int64')
+FLOAT_TY = {'scalar': 'float', 'container': 'list', 'T': 'float'}
+
+
+def _whole_attr(attr, v):
+    """nearest whole number inside the quantifier range (plain Python int in the spec)"""
+    if v is None or isinstance(v, str):
+        return v
+    if attr == 'vib_wavenumbers':
+        return [(1 if w > 0 else -1) * max(10, int(round(abs(w)))) for w in v]
+    if attr == 'rot_temperatures':
+        return [max(1, int(round(x))) for x in v]
+    if attr == 'molecular_weight':
+        return max(1, int(round(v)))
+    if attr in ('einstein_temperature', 'debye_temperature'):
+        return max(50, int(round(v)))
+    if attr == 'v0':
+        return max(50, int(round(v)))
+    if attr in ('interaction_energy', 'potentialenergy'):
+        return int(round(v))
+    return v            # imaginary_substitute (kept fractional on purpose), spin (half-integers), Bav ...
+
+
+def _fractional(rng):
+    v = rng.choice([rng.randint(10, 199) + rng.choice([0.5, 0.25, 0.75]), G.rnd(rng, 10, 200, 2)])
+    return v if v != int(v) else v + 0.5
+
+
+def _typing(rng, spec):
+    """give the species' parameters a non-default type: whole-number values as Python int or
+    numpy int64 (or everything as numpy float64), sequences as list / tuple / ndarray, T as int."""
+    ty = {'scalar': rng.choice(['int', 'int', 'np.int64', 'np.int64', 'np.float64', 'float']),
+          'container': rng.choice(['list', 'tuple', 'ndarray']),
+          'T': rng.choice(['float', 'int', 'np.int64'])}
+    if ty['scalar'] == 'float' and ty['container'] == 'list':
+        ty['container'] = 'tuple'
+    spec['typing'] = ty
+    if ty['T'] != 'float':
+        spec['conds'] = [[int(min(5000, max(50, round(T)))), P] for T, P in spec['conds']]
+    if ty['scalar'] not in INT_KINDS:
+        return
+    for slot in SLOTS:
+        m = spec[slot]
+        if m:
+            for a in list(m):
+                if a in SEQ_ATTRS or a in SCALAR_ATTRS:
+                    m[a] = _whole_attr(a, m[a])
+    for op in spec['hist']:
+        attr = HIST_OPS[op[0]][1]
+        if op[0] == 'set_geometry':
+            op[1]['rot_temperatures'] = _whole_attr('rot_temperatures', op[1]['rot_temperatures'])
+        else:
+            op[1] = _whole_attr(attr, op[1])
+    v = spec['vib']
+    if v and 'vib_wavenumbers' in v and rng.random() < 0.7:
+        # integer wavenumbers + imaginary mode + FRACTIONAL substitute, at construction and / or by
+        # re-assignment of imaginary_substitute / vib_wavenumbers
+        w = v['vib_wavenumbers']
+        if not any(x <= 0 for x in w):
+            w[rng.randrange(len(w))] *= -1
+        how = rng.choice(['construct', 'construct', 'assign_substitute', 'assign_wavenumbers'])
+        if how == 'assign_substitute':
+            v['imaginary_substitute'] = rng.choice([None, rng.randint(10, 200)])
+            spec['hist'] = spec['hist'][:2] + [['set_imaginary_substitute', _fractional(rng)]]
+        else:
+            v['imaginary_substitute'] = _fractional(rng)
+            if how == 'assign_wavenumbers':
+                neww = _whole_attr('vib_wavenumbers', G.gen_wavenumbers(rng))
+                neww[rng.randrange(len(neww))] = -abs(neww[0])
+                spec['hist'] = [h for h in spec['hist'] if h[0] != 'set_imaginary_substitute'][:2] \
+                    + [['set_wavenumbers', neww]]
+
+
 def gen_species(rng, force=None):
     force = force or {}
     spec = {'kind': 'species', 'name': 'sp', 'elements': G.gen_elements(rng)}
@@ -344,6 +434,8 @@ def gen_species(rng, force=None):
     if rng.random() < 0.2:
         _corner(rng, spec)
     spec['hist'] = _gen_hist(rng, spec) if rng.random() < 0.4 else []
+    if rng.random() < 0.3:
+        _typing(rng, spec)
     return spec
 
 
@@ -498,6 +590,39 @@ def directed(tier):
                  hist=[['set_einstein_temperature', 900.0], ['set_interaction_energy', 0.5]]))
     D.append(_sp(vib={'type': 'DebyeVib', 'debye_temperature': 300.0, 'interaction_energy': -0.2}, elec=h2o_el,
                  hist=[['set_debye_temperature', 900.0], ['set_interaction_energy', 0.5]]))
+    # parameter typing: whole numbers as int / numpy int64, sequences as list / tuple / ndarray, int T
+    # (pinned: integer wavenumbers + imaginary mode + fractional substitute, at construction and by
+    #  re-assignment of imaginary_substitute / vib_wavenumbers)
+    iT = [[300, 1.0], [50, 1e-4], [5000, 1e3]]
+    ity = lambda sc, co, T='int': {'scalar': sc, 'container': co, 'T': T}
+    iw = [100, -200, 3000, 1500]
+    D.append(_sp(vib={'type': 'HarmonicVib', 'vib_wavenumbers': iw, 'imaginary_substitute': 62.5},
+                 elec={'type': 'GroundStateElec', 'potentialenergy': -14, 'spin': 1}, conds=iT,
+                 typing=ity('int', 'list')))
+    D.append(_sp(vib={'type': 'QRRHOVib', 'vib_wavenumbers': iw, 'Bav': 1e-44, 'v0': 100, 'alpha': 4,
+                      'imaginary_substitute': 62.25}, conds=iT, typing=ity('np.int64', 'ndarray', 'np.int64')))
+    D.append(_sp(vib={'type': 'HarmonicVib', 'vib_wavenumbers': iw, 'imaginary_substitute': None}, conds=iT,
+                 hist=[['set_imaginary_substitute', 62.5], ['set_imaginary_substitute', 80],
+                       ['set_imaginary_substitute', 17.75]], typing=ity('int', 'tuple')))
+    D.append(_sp(vib={'type': 'QRRHOVib', 'vib_wavenumbers': iw, 'Bav': 1e-44, 'v0': 100, 'alpha': 4,
+                      'imaginary_substitute': 40}, conds=iT,
+                 hist=[['set_imaginary_substitute', 62.5]], typing=ity('int', 'ndarray')))
+    D.append(_sp(vib={'type': 'HarmonicVib', 'vib_wavenumbers': [250.5, 1200.0], 'imaginary_substitute': 62.5},
+                 hist=[['set_wavenumbers', [450, -77, 1200, -30]]], typing=ity('np.int64', 'ndarray', 'float')))
+    D.append(_sp(trans={'type': 'FreeTrans', 'n_degrees': 3, 'molecular_weight': 18},
+                 vib={'type': 'HarmonicVib', 'vib_wavenumbers': [3825, 3710, 1582], 'imaginary_substitute': None},
+                 rot={'type': 'RigidRotor', 'symmetrynumber': 2, 'geometry': 'nonlinear', 'rot_temperatures': [40, 21, 13]},
+                 elec={'type': 'GroundStateElec', 'potentialenergy': -14, 'spin': 1}, conds=iT,
+                 hist=[['set_molecular_weight', 44], ['set_rot_temperatures', [5, 5, 2]], ['set_potentialenergy', -3]],
+                 typing=ity('int', 'tuple')))
+    D.append(_sp(vib={'type': 'EinsteinVib', 'einstein_temperature': 300, 'interaction_energy': -1},
+                 rot={'type': 'RigidRotor', 'symmetrynumber': 1, 'geometry': 'linear', 'rot_temperatures': [100]},
+                 conds=iT, hist=[['set_einstein_temperature', 2000]], typing=ity('np.int64', 'list', 'np.int64')))
+    D.append(_sp(vib={'type': 'DebyeVib', 'debye_temperature': 300, 'interaction_energy': 1},
+                 trans={'type': 'FreeTrans', 'n_degrees': 2, 'molecular_weight': 500}, conds=iT,
+                 typing=ity('np.int64', 'tuple')))
+    D.append(_sp(trans=ft3, vib=h2o_vib, rot=h2o_rot, elec=h2o_el, typing=ity('float', 'tuple', 'float')))
+    D.append(_sp(trans=ft3, vib=h2o_vib, rot=h2o_rot, elec=h2o_el, typing=ity('np.float64', 'ndarray', 'float')))
     # geometry clause: every molecule of the bundled G2 set, one fixed rigid motion + permutation each
     from ase.collections import g2
     for i, name in enumerate(g2.names):
@@ -640,22 +765,83 @@ def build_elec(m):
     return G.build_mode(m)
 
 
+def _cast_scalar(v, sc):
+    """numeric value -> the requested scalar type; whole numbers only become ints"""
+    import numpy as np
+    if v is None or isinstance(v, (str, bool)) or sc is None:
+        return v
+    if sc == 'float':
+        return float(v)
+    if sc == 'np.float64':
+        return np.float64(v)
+    if sc in INT_KINDS:
+        if float(v).is_integer():
+            return int(v) if sc == 'int' else np.int64(int(v))
+        return float(v) if sc == 'int' else np.float64(v)
+    raise core.HarnessError('unknown scalar typing %r' % sc)
+
+
+def _cast_attr(attr, v, ty):
+    import numpy as np
+    if not ty:
+        return list(v) if isinstance(v, list) else v
+    if attr in SEQ_ATTRS:
+        vals = [_cast_scalar(x, ty['scalar']) for x in v]
+        c = ty.get('container', 'list')
+        return tuple(vals) if c == 'tuple' else np.array(vals) if c == 'ndarray' else vals
+    if attr in SCALAR_ATTRS:
+        return _cast_scalar(v, ty['scalar'])
+    return v
+
+
+def typed_mode(m, ty):
+    if m is None:
+        return None
+    return {k: _cast_attr(k, v, ty) for k, v in m.items()}
+
+
+def _construct(m):
+    """build a mode object handing the (typed) values over exactly as they are"""
+    if m is None or m['type'] in ('LSR',):
+        return build_elec(m)
+    from pmutt.statmech import trans, vib, rot, elec
+    t = m['type']
+    kw = {k: v for k, v in m.items() if k != 'type'}
+    cls = {'FreeTrans': trans.FreeTrans, 'HarmonicVib': vib.HarmonicVib, 'QRRHOVib': vib.QRRHOVib,
+           'EinsteinVib': vib.EinsteinVib, 'DebyeVib': vib.DebyeVib, 'RigidRotor': rot.RigidRotor,
+           'GroundStateElec': elec.GroundStateElec}.get(t)
+    if cls is None:
+        return G.build_mode(m)
+    return cls(**kw)
+
+
+def _typing_tag(ty):
+    return '%s_%s' % (ty['scalar'], ty['container']) if ty else None
+
+
+def _typing_family(ty):
+    """mechanism feature: were whole numbers handed over as integers ('int': Python int or numpy
+    int64) or was only the float flavour / container unusual ('float'); the exact combination goes
+    into the violation detail"""
+    return 'int' if ty['scalar'] in INT_KINDS else 'float'
+
+
 def build_rot(ctx, m):
     """a rotor whose symmetry number is a documented point-group label must be the rotor of the
     tabulated number (R9); if the label is refused the case goes on with the number."""
     if m is None or not isinstance(m['symmetrynumber'], str):
         if m is not None:
             ctx.cls('sigma:number')
-        return G.build_mode(m)
+        return _construct(m)
     ctx.cls('sigma:label')
     label = m['symmetrynumber']
     mech = {'class': 'RigidRotor', 'label': label}
-    obj = ctx.call('R9', mech, G.build_mode, m)
+    obj = ctx.call('R9', mech, _construct, m)
     if obj is not core.NOVALUE:
         if ctx.check('R9', obj.symmetrynumber == ref.POINT_GROUPS[label], mech,
                      got=obj.symmetrynumber, want=ref.POINT_GROUPS[label]):
             return obj
-    return G.build_mode(dict(m, symmetrynumber=ref.POINT_GROUPS[label]))
+    return _construct(dict(m, symmetrynumber=ref.POINT_GROUPS[label]))
 
 
 def _cls_of(m):
@@ -761,7 +947,7 @@ def closed_forms(ctx, obj, m, conds, include_ZPE, mech0):
     if cname == 'FreeTrans':
         mech0 = dict(mech0, n_degrees=m['n_degrees'])
     for T, P in conds:
-        want = ref.mode_reference(m, T, P, include_ZPE)
+        want = ref.mode_reference(m, float(T), float(P), include_ZPE)
         if want is None:
             return
         for q in QUANTS:
@@ -823,6 +1009,25 @@ def _tally(ctx, spec):
     if not o['use_references']:
         ctx.cls('opt:use_references=False')
     ctx.nontrivial(sum(1 for s in SLOTS if spec[s]) >= 2)
+    # parameter typing
+    ty = spec.get('typing')
+    if ty:
+        ctx.cls('typing:' + _typing_tag(ty))
+        if ty.get('T') in INT_KINDS:
+            ctx.cls('typing:%s_T' % ty['T'])
+        if ty['scalar'] in INT_KINDS:
+            whole = lambda x: x is not None and not isinstance(x, str) and float(x).is_integer()
+            if v and 'vib_wavenumbers' in v and all(whole(x) for x in v['vib_wavenumbers']):
+                ctx.cls('typing:int_wavenumbers')
+                sub = v.get('imaginary_substitute')
+                if any(x <= 0 for x in v['vib_wavenumbers']) and sub is not None and not whole(sub):
+                    ctx.cls('vib:int_wavenumbers+fractional_substitute')
+            if r and r['rot_temperatures'] and all(whole(x) for x in r['rot_temperatures']):
+                ctx.cls('typing:int_rot_temperatures')
+            if any(m and any(whole(m.get(a)) for a in ('molecular_weight', 'einstein_temperature',
+                                                       'debye_temperature', 'potentialenergy', 'spin'))
+                   for m in (t, v, e)):
+                ctx.cls('typing:int_scalars')
     # exact ties
     if r and r['geometry'] == 'nonlinear':
         k = len(set(r['rot_temperatures']))
@@ -885,6 +1090,7 @@ def _ref_entry(spec, q, T, use_references):
 def _observe_mode(ctx, obj, m, spec, full=True):
     cname = _cls_of(m)
     mech0 = _hist_mech({'class': cname})
+    ty = spec.get('typing')
     conds = spec['conds']
     if m is None or cname == 'EmptyNucl':
         closed_forms(ctx, obj, m, conds[:1], True, mech0)
@@ -893,7 +1099,26 @@ def _observe_mode(ctx, obj, m, spec, full=True):
         get = lambda q, T, P: _num(mcall(obj, 'get_' + q, T=T, P=P))
         relational(ctx, get, mech0, conds, spec['interval'], spec['Ppair'], cname == 'FreeTrans',
                    debye_theta=m['debye_temperature'] if cname == 'DebyeVib' else None)
+    if ty and cname != 'LSR':
+        mech0 = dict(mech0, typing=_typing_family(ty))      # closed forms and float twin only
     closed_forms(ctx, obj, m, conds, spec['opts']['include_ZPE'], mech0)
+    if ty and cname != 'LSR':
+        # the same numbers given as plain floats in a list must give exactly the same values
+        twin = _construct(typed_mode(m, FLOAT_TY))
+        for T, P in conds[:2]:
+            for q in QUANTS + ('q',):
+                if q == 'q' and cname == 'QRRHOVib':
+                    continue
+                mech = dict(mech0, q=q, vs='float_twin')
+                a = ctx.call('R7', mech, mcall, obj, 'get_' + q, T=T, P=P, include_ZPE=spec['opts']['include_ZPE'])
+                if a is core.NOVALUE:
+                    continue
+                try:
+                    b = _num(mcall(twin, 'get_' + q, T=float(T), P=float(P), include_ZPE=spec['opts']['include_ZPE']))
+                except Exception:
+                    continue            # the float object itself fails: reported by the closed forms
+                sc = abs(b) if (q == 'q' and 1e-280 < abs(b) < 1e280) else None
+                ctx.close('R7', _num(a), b, 1e-12, mech, scale=sc, T=T, P=P, typing=_typing_tag(ty))
 
 
 def _observe_species(ctx, sm, objs, cur, spec, misc_objs=None, relations=True):
@@ -997,10 +1222,18 @@ def run_species(spec, ctx):
     _ST['seen'] = set()
     _tally(ctx, spec)
     cur = {s: (dict(spec[s]) if spec[s] else None) for s in SLOTS}
+    ty = spec.get('typing')
+    if ty:
+        # conditions in the requested type (whole temperatures as int / numpy int64)
+        spec = dict(spec, conds=[[_cast_scalar(T, ty.get('T')) if ty.get('T') in INT_KINDS else T, P]
+                                 for T, P in spec['conds']])
     objs = {}
     for s in SLOTS:
-        builder = {'rot': lambda m: build_rot(ctx, m), 'elec': build_elec}.get(s, G.build_mode)
-        objs[s] = ctx.call('R7', {'class': _cls_of(cur[s]), 'step': 'construct'}, builder, cur[s])
+        builder = {'rot': lambda m: build_rot(ctx, m)}.get(s, _construct)
+        mech_c = {'class': _cls_of(cur[s]), 'step': 'construct'}
+        if ty and cur[s] is not None:
+            mech_c['typing'] = _typing_family(ty)
+        objs[s] = ctx.call('R7', mech_c, builder, typed_mode(cur[s], ty))
         if objs[s] is core.NOVALUE:
             return
     refs = None
@@ -1028,10 +1261,10 @@ def run_species(spec, ctx):
         if HIST_OPS[op][0] not in touched:
             touched.append(HIST_OPS[op][0])
     for slot in touched:
-        twins[slot] = build_elec(spec[slot]) if slot == 'elec' else (
-            G.build_mode(dict(spec[slot], symmetrynumber=ref.POINT_GROUPS.get(spec[slot]['symmetrynumber'],
-                                                                             spec[slot]['symmetrynumber']))
-                         if slot == 'rot' and isinstance(spec[slot]['symmetrynumber'], str) else spec[slot]))
+        m0 = spec[slot]
+        if slot == 'rot' and isinstance(m0['symmetrynumber'], str):
+            m0 = dict(m0, symmetrynumber=ref.POINT_GROUPS[m0['symmetrynumber']])
+        twins[slot] = _construct(typed_mode(m0, ty))
     # first evaluation of everything (caches / memos that exist get filled here)
     for s in SLOTS:
         _observe_mode(ctx, objs[s], cur[s], spec)
@@ -1058,13 +1291,21 @@ def run_species(spec, ctx):
         mech_a = _hist_mech({'class': cname, 'step': 'assign'})
         if op == 'set_geometry':
             # the number of rotational temperatures belongs to the geometry: assign both, observe after
-            steps = [('rot_temperatures', list(val['rot_temperatures'])), ('geometry', val['geometry'])]
+            steps = [('rot_temperatures', _cast_attr('rot_temperatures', val['rot_temperatures'], ty)),
+                     ('geometry', val['geometry'])]
             cur[slot]['rot_temperatures'] = list(val['rot_temperatures'])
             cur[slot]['geometry'] = val['geometry']
         else:
-            new = list(val) if isinstance(val, list) else val
-            steps = [(attr, new)]
+            steps = [(attr, _cast_attr(attr, val, ty))]
             cur[slot][attr] = list(val) if isinstance(val, list) else val
+        if ty and ty['scalar'] in INT_KINDS and cname in ('HarmonicVib', 'QRRHOVib'):
+            w, sub = cur[slot]['vib_wavenumbers'], cur[slot].get('imaginary_substitute')
+            if (all(float(x).is_integer() for x in w) and any(x <= 0 for x in w) and sub is not None
+                    and not float(sub).is_integer()):
+                if op == 'set_imaginary_substitute':
+                    ctx.cls('hist:set_imaginary_substitute:int_wavenumbers+fractional')
+                elif op == 'set_wavenumbers':
+                    ctx.cls('hist:set_wavenumbers:int+fractional_substitute')
         for a, v in steps:
             r = ctx.call('R7', mech_a, setattr, objs[slot], a, v)
             if r is core.NOVALUE:
